@@ -16,7 +16,8 @@ HEADLINE = ["intervals", "pairs_compared", "pairs_incomparable_allowed", "lt_imp
 
 def plan(tier, seed, scale):
     q = tier == "quick"
-    return {"maxlen": 3, "maxval": 2 if q else 3, "tmax": 3, "n_cases": 1,
+    # departure times must range beyond the largest tier value (t_i + s vs. o flips at t_i = o - s + 1)
+    return {"maxlen": 3, "maxval": 2 if q else 3, "tmax": 3 if q else 4, "n_cases": 1,
             "triple_sample": int((150000 if q else 3000000) * scale),
             "rand_shapes": 0 if q else 1, "timeout_s": 600 if q else 7200}
 
@@ -261,7 +262,7 @@ def replay(rep: dict) -> List[dict]:
         a = (v["a"]["pre_length"], v["a"]["cutoff"], tuple(v["a"]["tiers"]))
         b = (v["b"]["pre_length"], v["b"]["cutoff"], tuple(v["b"]["tiers"]))
         r = cmp_real(TI, a, b)
-        le, ge = model_rel(a, b, 3)
+        le, ge = model_rel(a, b, 5)
         if r == "incomparable":
             if le or ge:
                 out.append(dict(v))
@@ -289,7 +290,7 @@ def evidence(m, tier, seed):
     return {"level": "exploration", "coverage": {
         "rule": "all TieredInterval shapes (pre_length, cutoff, length <= 3) x all tier values in 0..maxval; every ordered "
                 "pair of equal shape is compared with the real operators and with the pointwise order of the "
-                "semantic model over all departure times in [0,3]^pre_length; all chaining pairs for the action "
+                "semantic model over all departure times in [0,maxval+1]^pre_length; all chaining pairs for the action "
                 "law; distinct_nontrivial = distinct ordered pairs the implementation accepted as comparable",
         "exhaustive": True,
         "transitivity_exhaustive": bool(c.get("transitivity_exhaustive")),
